@@ -75,11 +75,13 @@ def run (l : Lay) : List Step → Outcome Lay
     | .err k => .err k
     | .panic c => .panic c
 
-/-- byte range `[start, end)` of `at(i, j)` / `at_mut(i, j)` (znx_base.rs:71-80):
-`assert!(i < cols)`, `assert!(j < size)`, `offset = n * (j * cols + i)` scalars, `n` scalars long -/
+/-- byte range `[start, end)` of `at(i, j)` / `at_mut(i, j)` (znx_base.rs `at_ptr`, after 4e7ed9a):
+`assert!(i < cols)`, `assert!(j < size)`, `offset = n * (j * cols + i)` scalars,
+`assert!(offset + n <= n * poly_count())` (`poly_count = rows·cols·size`, `rows = 1` here), `n` scalars long -/
 def atRange (l : Lay) (i j : Nat) : Outcome (Nat × Nat) :=
   if ¬ i < l.cols then .panic "assert"
   else if ¬ j < l.size then .panic "assert"
+  else if ¬ l.n * (j * l.cols + i) + l.n ≤ l.n * (1 * l.cols * l.size) then .panic "assert"
   else .ok (l.n * (j * l.cols + i) * l.w, l.n * (j * l.cols + i) * l.w + l.n * l.w)
 
 /-- byte range of `raw()` / `raw_mut()`: `n * poly_count()` scalars from the start (`rows = 1`) -/
@@ -146,10 +148,12 @@ deriving DecidableEq, Repr
 def allocVmp (n rows colsIn colsOut size w : Nat) : Vmp :=
   ⟨n, rows, colsIn, colsOut, size, pad64 (n * rows * colsIn * colsOut * size * w), w⟩
 
-/-- the trait's `at(i, j)` on a `VmpPMat` -/
+/-- the trait's `at(i, j)` on a `VmpPMat` (`poly_count() = rows·cols_in·size·cols_out`): the third assertion
+rejects every access to a matrix with zero rows or zero output columns -/
 def vmpAtRange (m : Vmp) (i j : Nat) : Outcome (Nat × Nat) :=
   if ¬ i < m.colsIn then .panic "assert"
   else if ¬ j < m.size then .panic "assert"
+  else if ¬ m.n * (j * m.colsIn + i) + m.n ≤ m.n * (m.rows * m.colsIn * m.size * m.colsOut) then .panic "assert"
   else .ok (m.n * (j * m.colsIn + i) * m.w, m.n * (j * m.colsIn + i) * m.w + m.n * m.w)
 
 def vmpRawRange (m : Vmp) : Nat × Nat := (0, m.n * (m.rows * m.colsIn * m.size * m.colsOut) * m.w)
